@@ -29,6 +29,14 @@ MAP_ORDER_DEPENDENT = {"iter", "iter_mut", "keys", "values", "values_mut", "drai
 def run(ctx):
     F = ctx.facts
     g = mir.callgraph(F)
+    # Z7 = C14.O3-O6: the search thread cannot observe the running flag before `go` has raised it (otherwise, depending on scheduling,
+    # the search returns its unsearched fallback move)
+    from . import p14, p17
+    roles_ = p14.closures_by_role(F)
+    if "search" in roles_ and "timer" in roles_:
+        before, nv = len(ctx.instances), len(ctx.violations)
+        p14.o3_o6(ctx, F, roles_)
+        p17.relabel(ctx, before, nv, "C19.Z7")
     # Z6: a depth-limited search is not on the clock: with no clock and no move time given `go` computes no time budget, so no timer
     # thread can end the search early (the result would then depend on how fast the machine is)
     from . import p13
